@@ -246,3 +246,9 @@ unsafe impl<T> Adopt for Rc<T> {
         links.remove(Link::backward(this.ptr), 1);
     }
 }
+
+// Verification harnesses for the private items of this module (sources are
+// supplied by the verification harness at check time).
+#[cfg(kani)]
+#[path = "verif/k_adopt.rs"]
+mod k_adopt;
